@@ -123,6 +123,11 @@ func c14CheckHistory(c *fw.Ctx, ops []extOp, fresh bool, useReset bool) {
 			early = append(early, c14Early{lk, lib.ChainOf(lk).String()})
 		}
 	}
+	// Extend on detection results (detached copies): must leave the tree as the model has it
+	if c.Rand.Intn(2) == 0 {
+		extendOnResults(c.Rand, seeds, 1+c.Rand.Intn(4))
+		c.Count("extend_calls_on_detection_results", 1)
+	}
 	c.Count("histories", 1)
 	c.Count("extensions_registered", int64(len(ops)))
 	hkey := func(x []byte, l uint32) string {
